@@ -1627,7 +1627,8 @@ pub fn c11(args: &Args) -> i32 {
             "forms": ["FlatEx::subs", "DeepEx::subs"],
             "check": "value == simultaneous tree substitution (solver, all values); var_names == sorted union of untouched and replacement variables; empty map == original; the printed result parses back to the same expression (C12)"}),
     };
-    finish(args, "C11", vec![part], vec![], json!({
+    let derived = crate::calc::part_subs_derived(args);
+    finish(args, "C11", vec![part, derived], vec![], json!({
         "functions": ["DeepEx::subs", "Calculate::subs", "DeepEx::reset_vars", "DeepEx::compile", "FlatEx::to_deepex", "FlatEx::from_deepex"],
         "assumptions": ["parametricity in T"],
         "outside": ["expressions and replacements outside the pools", "repeated substitution beyond what the pool's self-referential entries exercise"],
